@@ -311,3 +311,16 @@ impl<S: Sample> Bundle<LfGlobalParams<'_, '_>> for GlobalModular<S> {
         })
     }
 }
+
+#[cfg(jxl_oxide_verif)]
+impl<S: Sample> GlobalModular<S> {
+    /// Verification hook (H2): wraps an already parsed Modular sub-bitstream header.
+    pub fn verif_from_modular(modular: Modular<S>) -> Self {
+        Self {
+            ma_config: None,
+            modular,
+            extra_channel_from: 0,
+            is_partial: false,
+        }
+    }
+}
